@@ -235,7 +235,7 @@ func (run *FuncRun) rootOfAddr(v ssa.Value) (root ssa.Value) {
 		case *ssa.FieldAddr:
 			v = x.X
 		case *ssa.IndexAddr:
-			if _, isPtr := x.X.Type().Underlying().(*types.Pointer); isPtr {
+			if _, isPtr := under(x.X.Type()).(*types.Pointer); isPtr {
 				v = x.X
 			} else {
 				return x // slice element
@@ -250,7 +250,7 @@ func (run *FuncRun) addCompForPointee(hs *havocSet, elem types.Type) {
 	reg := run.eng.reg
 	elem = types.Unalias(elem)
 	so := reg.SortOf(elem)
-	switch u := elem.Underlying().(type) {
+	switch u := under(elem).(type) {
 	case *types.Struct:
 		hs.comps[compStruct(so)] = ArrSort(SInt, so)
 	case *types.Array:
@@ -282,12 +282,12 @@ func (run *FuncRun) havocOfBlock(st *State, fr *Frame, blk *ssa.BasicBlock, hs *
 					run.addCompForPointee(hs, r.Type().(*types.Pointer).Elem())
 				}
 			case *ssa.IndexAddr: // slice element
-				es := reg.SortOf(r.X.Type().Underlying().(*types.Slice).Elem())
+				es := reg.SortOf(under(r.X.Type()).(*types.Slice).Elem())
 				hs.comps[compArr(es)] = ArrSort(SInt, ArrSort(SInt, es))
 			case *ssa.Global:
 				hs.comps[compGlobal(r)] = reg.SortOf(r.Type().(*types.Pointer).Elem())
 			default:
-				pt, ok := root.Type().Underlying().(*types.Pointer)
+				pt, ok := under(root.Type()).(*types.Pointer)
 				if !ok {
 					hs.all = true
 					continue
@@ -302,12 +302,12 @@ func (run *FuncRun) havocOfBlock(st *State, fr *Frame, blk *ssa.BasicBlock, hs *
 				hs.locals[in] = true
 			}
 		case *ssa.MapUpdate:
-			run.addMapComps(hs, in.Map.Type().Underlying().(*types.Map))
+			run.addMapComps(hs, under(in.Map.Type()).(*types.Map))
 		case *ssa.MakeMap:
-			run.addMapComps(hs, in.Type().Underlying().(*types.Map))
+			run.addMapComps(hs, under(in.Type()).(*types.Map))
 			hs.allocs = true
 		case *ssa.MakeSlice:
-			es := reg.SortOf(in.Type().Underlying().(*types.Slice).Elem())
+			es := reg.SortOf(under(in.Type()).(*types.Slice).Elem())
 			hs.comps[compArr(es)] = ArrSort(SInt, ArrSort(SInt, es))
 			hs.allocs = true
 		case *ssa.MakeClosure, *ssa.MakeInterface:
@@ -333,15 +333,15 @@ func (run *FuncRun) havocOfCall(st *State, fr *Frame, c *ssa.CallCommon, hs *hav
 	if bi, ok := c.Value.(*ssa.Builtin); ok {
 		switch bi.Name() {
 		case "append":
-			es := reg.SortOf(c.Args[0].Type().Underlying().(*types.Slice).Elem())
+			es := reg.SortOf(under(c.Args[0].Type()).(*types.Slice).Elem())
 			hs.comps[compArr(es)] = ArrSort(SInt, ArrSort(SInt, es))
 			hs.allocs = true
 		case "delete", "clear":
-			if mt, ok := c.Args[0].Type().Underlying().(*types.Map); ok {
+			if mt, ok := under(c.Args[0].Type()).(*types.Map); ok {
 				run.addMapComps(hs, mt)
 			}
 		case "copy":
-			es := reg.SortOf(c.Args[0].Type().Underlying().(*types.Slice).Elem())
+			es := reg.SortOf(under(c.Args[0].Type()).(*types.Slice).Elem())
 			hs.comps[compArr(es)] = ArrSort(SInt, ArrSort(SInt, es))
 		}
 		return
@@ -484,7 +484,7 @@ func (run *FuncRun) havocOfContract(st *State, fc *FuncContract, c *ssa.CallComm
 // ---------- range / next ----------
 
 func (run *FuncRun) execRange(st *State, in *ssa.Range) {
-	switch xt := in.X.Type().Underlying().(type) {
+	switch xt := under(in.X.Type()).(type) {
 	case *types.Map:
 		m := run.term(st, in.X)
 		kS := run.eng.reg.SortOf(xt.Key())
